@@ -302,6 +302,8 @@ def ev(e):
     if t == "nan":
         return NAN
     if t == "nnew":
+        if a[1] >= (1 << 63):
+            raise Undefined()
         if a[1] == 0:
             if a[0] == 0:
                 raise Undefined()
